@@ -45,6 +45,21 @@ Fixpoint esc_chk (isb esc : bool) (s : text) : bool :=
       else esc_chk isb false r
   end.
 
+(* Python recognises the escape that starts with backslash + c (language reference table; for the
+   str flavour also N u U) *)
+Definition known_start (isb : bool) (c : N) : bool :=
+  match feed (fun _ => None) true isb SEsc c with Some _ => true | None => false end.
+
+(* every backslash escape of a (newline-translated) body is one Python recognises *)
+Fixpoint rec_chk (isb esc : bool) (s : text) : bool :=
+  match s with
+  | [] => true
+  | c :: r =>
+      if c =? ch_bs then rec_chk isb (negb esc) r
+      else if esc && negb (known_start isb c) then false
+      else rec_chk isb false r
+  end.
+
 (* end position of the first occurrence of [pat] in [s] *)
 Fixpoint find_end (pat s : text) : option nat :=
   if starts_with pat s then Some (length pat)
